@@ -149,7 +149,19 @@ impl Cfg {
             .collect::<HashSet<LabelStringToken>>();
 
         if !undefined_labels.is_empty() {
-            return Err(Box::new(CfgError::LabelsNotDefined(undefined_labels)));
+            // The first use of every undefined label, in the order of the
+            // program: the error is reported at the first of them, in
+            // whichever file it is
+            let mut in_order: Vec<LabelStringToken> = Vec::new();
+            for node in &old_nodes {
+                let used = [node.calls_to(), node.jumps_to(), node.reads_address_of()];
+                for name in used.into_iter().flatten() {
+                    if undefined_labels.contains(&name) && !in_order.contains(&name) {
+                        in_order.push(name);
+                    }
+                }
+            }
+            return Err(Box::new(CfgError::LabelsNotDefined(in_order)));
         }
 
         // Code always begins in the text segment if it is not defined.
